@@ -306,7 +306,7 @@ class Headers:
                 )
 
             proof_of_work = self.get_proof_of_work(current_hash)
-            if proof_of_work > target:
+            if proof_of_work > ArithUint256.from_compact(target.compact):
                 raise InvalidHeader(
                     height, f"insufficient proof of work: {proof_of_work.value} vs target {target.value}"
                 )
